@@ -39,6 +39,9 @@ pub enum UnionVia {
 	Enum,
 	/// deserialize_option for 2-branch unions with null, enum otherwise
 	OptionWhenNullable,
+	/// deserialize_option around every union (what `Option<RustEnum>` does): None is the null branch when there is one,
+	/// Some(..) hands the selected branch to the enum, which identifies it by the variant name it is given
+	OptionAlways,
 }
 #[derive(Clone, Copy, Debug, PartialEq, Eq)]
 pub enum EnumVia {
@@ -141,6 +144,7 @@ impl<'de, 'a> DeserializeSeed<'de> for Collect<'a> {
 				let nullable2 = bs.len() == 2 && bs.iter().any(|&b| matches!(self.s.eff(b), Eff::Null));
 				match self.m.union_via {
 					UnionVia::OptionWhenNullable if nullable2 => d.deserialize_option(v),
+					UnionVia::OptionAlways => d.deserialize_option(v),
 					_ => d.deserialize_enum("U", &[], v),
 				}
 			}
@@ -346,10 +350,14 @@ impl<'de, 'a> Visitor<'de> for CV<'a> {
 	fn visit_some<D: Deserializer<'de>>(self, d: D) -> Result<Val, D::Error> {
 		self.0.note_visit();
 		match self.eff() {
-			Eff::Union(bs) if bs.len() == 2 => match bs.iter().position(|&b| !matches!(self.0.s.eff(b), Eff::Null)) {
-				Some(i) => Ok(Val::Union(i, Box::new(self.0.at(bs[i]).deserialize(d)?))),
-				None => self.wrong("some"),
-			},
+			Eff::Union(bs) if bs.len() == 2 && bs.iter().any(|&b| matches!(self.0.s.eff(b), Eff::Null)) => {
+				match bs.iter().position(|&b| !matches!(self.0.s.eff(b), Eff::Null)) {
+					Some(i) => Ok(Val::Union(i, Box::new(self.0.at(bs[i]).deserialize(d)?))),
+					None => self.wrong("some"),
+				}
+			}
+			// any other union: the content is an enum over the branches (Option<RustEnum>)
+			Eff::Union(_) if self.0.m.union_via == UnionVia::OptionAlways => d.deserialize_enum("U", &[], CV(self.0)),
 			_ => self.wrong("some"),
 		}
 	}
